@@ -170,7 +170,8 @@ class Gen:
             return {"o": "edelete", "h": k}, ("doom", k)
         if y < 0.375 and not in_body:
             return {"o": "delete_all"}, ("all", None)
-        if y < 0.42 and not in_body:
+        if y < 0.42 and (not in_body or r.random() < 0.15):
+            # (inside a lazy action: a nested maintain, which drains the rest of the queue at once)
             return {"o": "maintain"}, ("maintain", None)
         if self.S == 0:
             return {"o": "ecreate"}, ("new", False)
